@@ -659,7 +659,11 @@ pub fn check(args: &[String]) -> i32 {
                     let raw = std::fs::read_to_string(&v.path)
                         .ok()
                         .and_then(|t| json::parse(&t).ok());
-                    let before: Vec<u64> = (0..v.run).filter(|i| i % workers == v.run % workers).collect();
+                    // (the run itself comes last: regenerating it repeats what its own
+                    // generation did in the process - candidate definitions that were checked
+                    // and rejected - before the explicit case is executed)
+                    let mut before: Vec<u64> = (0..v.run).filter(|i| i % workers == v.run % workers).collect();
+                    before.push(v.run);
                     let ok = match raw {
                         Some(raw) => match (raw.get("case"), raw.get("violation")) {
                             (Some(c), Some(viol)) => {
@@ -730,11 +734,13 @@ pub fn check(args: &[String]) -> i32 {
             let path = format!("{}/{}-{}-{}-{}-T7x.json", replay_dir(), prop, seed, pass.name(), run);
             let _ = std::fs::create_dir_all(replay_dir());
             // which layout was polluted? main: same residue class, ascending; proof: descending
-            let main_before: Vec<u64> = (0..*run).filter(|i| i % workers == run % workers).collect();
+            let mut main_before: Vec<u64> = (0..*run).filter(|i| i % workers == run % workers).collect();
+            main_before.push(*run);
             let det_workers: u64 = if *pass == Pass::Faults { 1 } else { 3 };
             let det_total = if *pass == Pass::Faults { t.determinism.min(t.faults) } else { t.determinism.min(t.clean) };
             let mut det_before: Vec<u64> = (*run + 1..det_total).filter(|i| i % det_workers == run % det_workers).collect();
             det_before.reverse();
+            det_before.push(*run);
             let mut ok = false;
             for before in [&main_before, &det_before] {
                 if let (Some(c), Some(viol)) = (rf.get("case"), rf.get("violation")) {
